@@ -4,6 +4,7 @@ pub mod elems;
 pub mod events;
 pub mod interp;
 pub mod vals;
+pub mod views;
 
 #[global_allocator]
 static GLOBAL: alloc::Rec = alloc::Rec;
@@ -29,6 +30,7 @@ fn main() {
     }));
     match args[1].as_str() {
         "script" => run_script(&args[2], &args[3], flag(&args, "--from").unwrap_or(0), flag(&args, "--count").unwrap_or(usize::MAX)),
+        "views" => run_each(&args[2], &args[3], flag(&args, "--from").unwrap_or(0), flag(&args, "--count").unwrap_or(usize::MAX), views::run_case),
         x => {
             eprintln!("unknown subcommand {}", x);
             std::process::exit(2);
@@ -38,6 +40,21 @@ fn main() {
 
 fn flag(args: &[String], name: &str) -> Option<usize> {
     args.iter().position(|a| a == name).and_then(|i| args.get(i + 1)).and_then(|v| v.parse().ok())
+}
+
+fn run_each(scn: &str, out: &str, from: usize, count: usize, f: fn(&J)) {
+    let rd = std::io::BufReader::new(std::fs::File::open(scn).expect("HARNESS: scenario file"));
+    events::open(out);
+    for (i, line) in rd.lines().enumerate() {
+        let line = line.unwrap();
+        if i < from || i - from >= count || line.trim().is_empty() {
+            continue;
+        }
+        let j: J = serde_json::from_str(&line).expect("HARNESS: scenario json");
+        eprintln!("@case {}", i);
+        f(&j);
+    }
+    events::flush();
 }
 
 fn run_script(scn: &str, out: &str, from: usize, count: usize) {
